@@ -4,6 +4,10 @@ CONSTANTS
   MaxLen = 1
   ChunkLens = {1}
   Deltas = {1}
-INVARIANTS TypeOK NeverPartial SuccessIdentical
+  MaxXfers = 1
+  Servers = {"cl"}
+  Musts = {FALSE}
+  ResetOnRefusal = TRUE
+INVARIANTS TraceIdle
 POSTCONDITION TraceAccepted
 CHECK_DEADLOCK FALSE
